@@ -543,6 +543,26 @@ func ruleStride(c *Ctx, rule string, fns []*ssa.Function) {
 					return []term{{x, ia, false}}
 				}
 			}
+		case *ssa.Phi:
+			// a letter index joined with a constant (the index used when there is no letter to look up)
+			var ts []term
+			for _, e := range x.Edges {
+				if _, isK := e.(*ssa.Const); isK || e == ssa.Value(x) {
+					continue
+				}
+				for _, t := range decode(e, depth+1) {
+					dup := false
+					for _, u := range ts {
+						dup = dup || u.ia == t.ia
+					}
+					if !dup {
+						ts = append(ts, t)
+					}
+				}
+			}
+			if len(ts) == 1 {
+				return ts
+			}
 		case *ssa.BinOp:
 			switch x.Op {
 			case token.ADD:
@@ -711,8 +731,131 @@ func ruleWatermark(c *Ctx, rule string, fn *ssa.Function) {
 		}
 	}
 	if n == 0 {
+		n = watermarkViaHelper(c, rule, fn)
+	}
+	if n == 0 {
 		c.und(rule, funcName(fn)+"/invalid-letter-watermark", fn.Pos(), "no skipped-letter branch found")
 	}
+}
+
+// watermarkViaHelper: the look-up and the sign test sit in a step function of the package that is handed the
+// letter and its position (kmer, high = ki.extend(kmer, high, s.Seq[next], next)): on the invalid-letter
+// branch it returns position+1, and every call passes the position the letter was read at.
+func watermarkViaHelper(c *Ctx, rule string, fn *ssa.Function) int {
+	alphaPath := modPath + "/alphabet"
+	n := 0
+	for _, h := range privateReach(fn) {
+		if h == fn {
+			continue
+		}
+		for _, b := range h.Blocks {
+			for _, ins := range b.Instrs {
+				ia, ok := ins.(*ssa.IndexAddr)
+				if !ok || !isNamed(ia.X.Type(), alphaPath, "Index") {
+					continue
+				}
+				// the letter looked up is a parameter of the helper
+				var letter *ssa.Parameter
+				for v := ia.Index; letter == nil; {
+					switch x := v.(type) {
+					case *ssa.Convert:
+						v = x.X
+						continue
+					case *ssa.ChangeType:
+						v = x.X
+						continue
+					case *ssa.Parameter:
+						letter = x
+					}
+					break
+				}
+				if letter == nil {
+					continue
+				}
+				for _, r := range *ia.Referrers() {
+					v, ok := r.(*ssa.UnOp)
+					if !ok || v.Op != token.MUL {
+						continue
+					}
+					for _, rr := range *v.Referrers() {
+						bo, ok := rr.(*ssa.BinOp)
+						if !ok {
+							continue
+						}
+						for _, r3 := range *bo.Referrers() {
+							ifi, ok := r3.(*ssa.If)
+							if !ok {
+								continue
+							}
+							f, ok := condFact(ifi.Cond, sameValue(v))
+							if !ok {
+								continue
+							}
+							neg := -1
+							if lowerBound([]cmpFact{f}, -1) >= 0 {
+								neg = 1
+							} else {
+								nf := f
+								nf.op = negateOp(f.op)
+								if lowerBound([]cmpFact{nf}, -1) >= 0 {
+									neg = 0
+								}
+							}
+							if neg < 0 {
+								continue
+							}
+							nb := ifi.Block().Succs[neg]
+							ret, ok := nb.Instrs[len(nb.Instrs)-1].(*ssa.Return)
+							if !ok {
+								continue
+							}
+							// the result that is a position parameter plus a constant
+							for _, res := range ret.Results {
+								add, ok := res.(*ssa.BinOp)
+								if !ok || add.Op != token.ADD {
+									continue
+								}
+								at, isP := add.X.(*ssa.Parameter)
+								k, isK := constIntVal(add.Y)
+								if !isP || !isK || !isIntegral(at.Type()) {
+									continue
+								}
+								// every call: the position passed is where the letter passed was read
+								for _, g := range privateReach(fn) {
+									for _, gb := range g.Blocks {
+										for _, gi := range gb.Instrs {
+											call, ok := gi.(*ssa.Call)
+											if !ok || call.Call.StaticCallee() != h {
+												continue
+											}
+											li, ai := paramIndex(h, letter), paramIndex(h, at)
+											if li < 0 || ai < 0 || li >= len(call.Call.Args) || ai >= len(call.Call.Args) {
+												continue
+											}
+											n++
+											key := fmt.Sprintf("%s/invalid-letter-watermark#%d", funcName(fn), n)
+											acc := seqAccess(call.Call.Args[li])
+											switch {
+											case acc == nil:
+												c.und(rule, key, call.Pos(), "the letter handed to "+h.Name()+" is not read from the sequence at a position")
+											case !linOf(acc.Index, nil).equal(linOf(call.Call.Args[ai], nil)):
+												c.bad(rule, key, call.Pos(), fmt.Sprintf("%s is told the letter sits at %s but it was read at %s: the watermark it returns for an invalid letter is off, so a window containing the invalid letter is reported (or a valid one dropped)", h.Name(), linOf(call.Call.Args[ai], nil).String(), linOf(acc.Index, nil).String()))
+											case k != 1:
+												c.bad(rule, key, add.Pos(), fmt.Sprintf("the watermark is set to the invalid letter's position %+d instead of +1: the window that starts at (or just before) the invalid letter is still reported, as a k-mer with the letter read as index 0", k))
+											default:
+												c.ok(rule, key, call.Pos(), "on the invalid-letter branch "+h.Name()+" returns the letter's position + 1, and the call passes the position the letter was read at")
+											}
+										}
+									}
+								}
+							}
+						}
+					}
+				}
+			}
+		}
+	}
+	return n
 }
 
 // ---- dpstep: a DP transition pairs the predecessor cell with the letters it consumes ----
